@@ -66,8 +66,9 @@ MONITOR_Q = [(1, 0), (3, 3), (8, 0), (12, 0), (18, 3)]      # (statement, docume
 BOUNDS = {
     'quick': 'coarse: all unordered pairs (incl. same statement twice) of an 8-statement core with preemption bound 1, 4 deep pairs with bound 2 where points**2 <= 25000 (small documents), each split into 6 disjoint shards, '
              '4 triples with bound 1, 1 pair (a statement nested deeper than the default recursion limit allows || a short one) with bound 2, 2 pairs on what the prepared context holds (a YAQL-defined function called with keyword arguments only, bound 2; a lazily sorted collection not yet iterated, rebuilt per schedule, bound 1); fine: 2 ordered pairs, every line event, on the warm shared context, and 1 pair on a fresh (cold) shared context per schedule; monitor: 4 statements',
-    'thorough': 'coarse: all pairs of the 16-statement pool with bound 2 (bound 3 for an 8-pair core), all triples of a 5-statement core with bound 2, 3 pairs with the deeply nested statement at bound 2; '
-                'fine: 40 ordered pairs, every line event (warm context), 11 pairs on a cold context per schedule; monitor: all statements; yaql.eval module path',
+    'thorough': 'coarse: all pairs of the first 19 statements of the pool with bound 2 where points**2 <= 8000 else bound 1, 13 deep pairs with bound 3 where points**3 <= 150000 (else 2), all triples of a 5-statement core '
+                'with bound 2 where points**2 <= 20000, 3 pairs with the deeply nested statement at bound 2, 6 groups on the prepared context; '
+                'fine: 20 ordered pairs, every line event (warm context), 7 pairs on a cold context per schedule; monitor: all statements; yaql.eval module path',
 }
 
 _S = {}
@@ -556,7 +557,7 @@ def jobs(tier, seed):
     for s in range(nsh):
         part = pairs[s::nsh]
         if part:
-            out.append(('coarse-pairs-%02d' % s, 'job_coarse', (part, 1 if quick else 2, 'pair', None if quick else 40000)))
+            out.append(('coarse-pairs-%02d' % s, 'job_coarse', (part, 1 if quick else 2, 'pair', None if quick else 8000)))
     # deeper bound for selected pairs; each group is split into disjoint shards of its schedule tree
     deep = [((1, 0), (2, 1)), ((1, 0), (1, 1)), ((8, 0), (8, 1)), ((16, 4), (17, 5))]
     if not quick:
@@ -565,7 +566,7 @@ def jobs(tier, seed):
     for gi, g in enumerate(deep):
         tot = sum(len(sched.Execution([lambda i=i, d=d: evaluate(i, d)], [], None).go().trace) for i, d in g)
         b = 2 if quick else 3
-        while b > 1 and tot ** b > (25000 if quick else 2000000):
+        while b > 1 and tot ** b > (25000 if quick else 150000):
             b -= 1
         if b < 2:
             continue          # covered at bound 1 by the pair jobs
@@ -592,14 +593,12 @@ def jobs(tier, seed):
     if quick:
         triples = triples[:4]
     for s, g in enumerate(triples):
-        out.append(('coarse-triple-%02d' % s, 'job_coarse', ([g], 1 if quick else 2, 'triple', None if quick else 60000)))
+        out.append(('coarse-triple-%02d' % s, 'job_coarse', ([g], 1 if quick else 2, 'triple', None if quick else 20000)))
     if quick:
         fine = [((1, 0), (2, 1)), ((8, 0), (8, 1))]
     else:
-        fine = [((a, 0), (b, 1)) for a, b in ((1, 2), (2, 1), (1, 1), (2, 2), (0, 0), (0, 14), (3, 3), (3, 4), (4, 4), (5, 5), (5, 2),
-                                              (6, 6), (6, 7), (7, 7), (7, 6), (8, 8), (8, 0), (9, 9), (9, 12), (10, 10), (10, 4),
-                                              (11, 11), (11, 14), (12, 12), (12, 8), (13, 13), (13, 1), (14, 14), (14, 0), (15, 15),
-                                              (15, 0), (0, 1), (1, 0), (2, 3), (3, 2), (4, 13), (13, 4), (5, 0), (8, 5), (2, 15))]
+        fine = [((a, 0), (b, 1)) for a, b in ((1, 2), (2, 1), (1, 1), (0, 14), (3, 3), (3, 4), (5, 5), (5, 2), (6, 7), (7, 7),
+                                              (8, 8), (8, 0), (9, 12), (10, 10), (11, 14), (12, 8), (13, 1), (14, 0), (15, 15), (2, 15))]
     step = 600 if quick else 1500
     for (a, b) in fine:
         n = sched.count_line_events(lambda: evaluate(*a), _filter)
@@ -607,7 +606,7 @@ def jobs(tier, seed):
             out.append(('fine-%d-%d-%05d' % (a[0], b[0], lo), 'job_fine', (a, b, lo, lo + step)))
     # the same on a cold shared context per schedule
     cold = [((1, 0), (1, 1))] if quick else \
-        [((a, 0), (b, 1)) for a, b in ((1, 1), (1, 2), (7, 7), (10, 10), (8, 8), (3, 3), (12, 12), (9, 9), (5, 5), (13, 13))] + [((18, 3), (18, 3))]
+        [((a, 0), (b, 1)) for a, b in ((1, 1), (1, 2), (7, 7), (10, 10), (8, 8), (3, 3))] + [((18, 3), (18, 3))]
     for (a, b) in cold:
         cold_root()
         n = sched.count_line_events(lambda: evaluate(*a), _filter)
